@@ -41,4 +41,16 @@ for i, l in enumerate(lines):
 else:
     sys.exit('no item found in lib.rs')
 open(p, 'w').write('\n'.join(lines))
+# thread_local! state must be per *simulated* thread: shuttle's threads are coroutines on one OS
+# thread, std's macro would give them all the same storage. (Not in verif_hooks.rs: the harness's
+# own counters. NIMC_INSTR_PLAIN=1 skips this: shuttle's LocalKey has no get / set shorthands.)
+import os, glob
+if os.environ.get('NIMC_INSTR_PLAIN') != '1':
+    for f in glob.glob(d + '/src/**/*.rs', recursive=True):
+        if f.endswith('verif_hooks.rs'):
+            continue
+        t = open(f).read()
+        t2 = re.sub(r'(?<![\w:])thread_local!', '::verif_std::task_local!', t)
+        if t2 != t:
+            open(f, 'w').write(t2)
 PY
